@@ -85,10 +85,30 @@ def parseCase (line : String) : Option (World × List Step) :=
     | _, _ => none
   | _ => none
 
-def runTrace (w : World) : List Step → List String
+/-- a script op: a fixed step, or "deliver the newest message of a link" (`dcpL` / `dpcL`), whose index is
+    only known when it runs (used by the recovery epilogue `tc tc dcpL dpcL dcpL` = `recover` of Props/C42) -/
+inductive DOp
+  | fixed (s : Step)
+  | lastCP
+  | lastPC
+
+def DOp.resolve (w : World) : DOp → Step
+  | .fixed s => s
+  | .lastCP => .deliverCP (w.netCP.length - 1)
+  | .lastPC => .deliverPC (w.netPC.length - 1)
+
+def DOp.toC : DOp → GoaktVerif.Driver.C42c.Op
+  | .fixed s => .step s
+  | .lastCP => .lastCP
+  | .lastPC => .lastPC
+
+def parseDOp (s : String) : Option DOp :=
+  if s = "dcpL" then some .lastCP else if s = "dpcL" then some .lastPC else (parseOp s).map .fixed
+
+def runTrace (w : World) : List DOp → List String
   | [] => []
   | s :: ss =>
-    let (w', o) := w.step s
+    let (w', o) := w.step (s.resolve w)
     traceOf w' o :: runTrace w' ss
 
 /-- optional chunk configuration tokens right after the two fixed fields: `m<maxChunkBytes>` and `L<a,b,c>`
@@ -107,7 +127,7 @@ def chunkCfg (ops : List String) : Option (Nat × List Nat) × List String :=
 def parseOpC (s : String) : Option GoaktVerif.Driver.C42c.Op :=
   if s.startsWith "fw" then ((s.drop 2).toString.toNat?).map .forgeWhole
   else if s.startsWith "ff" then ((s.drop 2).toString.toNat?).map .forgeFirst
-  else (parseOp s).map .step
+  else (parseDOp s).map DOp.toC
 
 def model (line : String) : String :=
   match words line with
@@ -120,7 +140,7 @@ def model (line : String) : String :=
       | some steps => GoaktVerif.Driver.C42c.run wn (dc == "1") mx ls steps
       | none => "bad-case"
     | _, _ =>
-    match w.toNat?, ops.mapM parseOp with
+    match w.toNat?, ops.mapM parseDOp with
     | some wn, some steps =>
       if wn < 1 || wn > maxWindow then "bad-case" else
       match cfg with
@@ -130,7 +150,7 @@ def model (line : String) : String :=
         let w0 := World.init wn 1 (dc == "1")
         let init := "init " ++ group "cp" (w0.netCP.map showC) ++ digestP w0.p ++ " " ++ digestC w0.c
         let a := ";".intercalate (init :: runTrace w0 steps)
-        let b := GoaktVerif.Driver.C42c.run wn (dc == "1") 0 [] (steps.map .step)
+        let b := GoaktVerif.Driver.C42c.run wn (dc == "1") 0 [] (steps.map DOp.toC)
         if a == b then a else "MODELS-DISAGREE " ++ a
     | _, _ => "bad-case"
   | _ => "bad-case"
